@@ -15,15 +15,15 @@ LABEL_SETS = [[0, 1], [3, 7, 11], ["b", "a"], [-1, 2], ["x", "Y", "z", "w"], [5,
 
 def dec_row(row):
     """Exact decoding of a probability row; rows whose entries are not small rationals (accuracy-weighted
-    votes) are put on a fixed grid of 1e-8 with the rounding remainder given to the largest entry, provided
-    the float row sums to 1 within 1e-9."""
+    votes, logistic models) are put on a fixed grid of 1e-4 (monotone, so the maximal entries stay maximal) with the
+    rounding remainder given to the largest entry, provided the float row sums to 1 within 1e-9."""
     out = [rational(float(v)) for v in row]
-    if all(o is not None for o in out):
+    if all(o is not None and o[1] <= 2000 for o in out):
         return out
-    D = 10 ** 8
-    ints = [int(round(float(v) * D)) for v in row]
+    D = 10 ** 4
+    ints = [int(np.floor(float(v) * D + 1e-9)) for v in row]       # floor: monotone, the remainder is never negative
     if abs(float(np.sum(row)) - 1.0) <= 1e-9:
-        ints[int(np.argmax(ints))] += D - sum(ints)
+        ints[int(np.argmax(np.asarray(row, dtype=float)))] += D - sum(ints)      # the largest entry stays the largest
     from fractions import Fraction
     return [[Fraction(i, D).numerator, Fraction(i, D).denominator] for i in ints]
 
@@ -181,7 +181,7 @@ def run(ctx):
              "average of the fitted trees on mean / std / slope of their intervals (features recomputed by the "
              "harness), column ensemble = average of its members on their own columns; the forest regressor is "
              "compared with the average of its trees. Non-trivial = every run; distinct by (classifier, labels, seed).",
-        assumptions=["compat shim; numba stubs", "probability rows that are not small rationals (accuracy-weighted votes) are put on a 1e-8 grid when the float row sums to 1 within 1e-9",
+        assumptions=["compat shim; numba stubs", "probability rows that are not small rationals (accuracy-weighted votes) are put on a 1e-4 grid (monotone rounding) when the float row sums to 1 within 1e-9",
                      "sklearn's tree induction is trusted; which features reach which tree and how outputs are averaged is checked"])
 
 
